@@ -7,7 +7,7 @@ import time
 from . import ir
 from .ir import AnalysisBroken, VERIF
 
-EVID = os.path.join(VERIF, "evidence")
+EVID = os.environ.get("VERIF_EVID_DIR") or os.path.join(VERIF, "evidence")
 KNOWN = os.path.join(VERIF, "known_findings.json")
 
 
